@@ -34,6 +34,26 @@ def SV.resize (v : SV) (n : Nat) : SV × Delta :=
       ({ size := n, arr := some (moveInto old fresh (min v.size n)) }, (n, old.length))
   | none => ({ size := n, arr := some (createArray n) }, (n, 0))
 
+/-- `new T[n]` in which the `k`-th element construction throws (`1 ≤ k ≤ n`): the `k-1`
+objects already constructed are destroyed again by the array-new unwinding and the exception
+propagates before `array_`/`size_` are assigned.  `none` = no throw (`k = 0` or `k > n`). -/
+def createArrayThrows (n k : Nat) : Option Delta :=
+  if 1 ≤ k ∧ k ≤ n then some (k - 1, k - 1) else none
+
+/-- `SimpleVector(n)` whose `k`-th element construction throws: no object comes into being
+(the harness then default-constructs an empty vector in the register) -/
+def SV.newThrow (n k : Nat) : SV × Delta × Bool :=
+  match (if n > 0 then createArrayThrows n k else none) with
+  | some d => ({}, d, true)
+  | none => ((SV.new n).1, (SV.new n).2, false)
+
+/-- `resize(n)` whose `k`-th element construction throws: both branches call `create_array`
+before they modify a member, so the vector is unchanged -/
+def SV.resizeThrow (v : SV) (n k : Nat) : SV × Delta × Bool :=
+  match createArrayThrows n k with
+  | some d => (v, d, true)
+  | none => ((v.resize n).1, (v.resize n).2, false)
+
 def SV.destroy (v : SV) : SV × Delta := ({}, (0, v.live))
 def SV.dtor (v : SV) : Delta := (0, v.live)
 def SV.fill (v : SV) (x : Int) : SV := { v with arr := v.arr.map fun xs => xs.map fun _ => x }
@@ -63,6 +83,14 @@ def stepSV (regs : List (Option SV)) (ts : List String) : Option (List (Option S
       let r ← r.toNat?; let n ← n.toNat?; let v ← get r
       let (v', d) := v.resize n
       fin (regs.set r (some v')) "ok" d
+  | ["tnew", r, n, k] => do
+      let r ← r.toNat?; let n ← n.toNat?; let k ← k.toNat?
+      let (v, d, threw) := SV.newThrow n k
+      fin (regs.set r (some v)) (if threw then "threw" else "ok") d
+  | ["tresize", r, n, k] => do
+      let r ← r.toNat?; let n ← n.toNat?; let k ← k.toNat?; let v ← get r
+      let (v', d, threw) := v.resizeThrow n k
+      fin (regs.set r (some v')) (if threw then "threw" else "ok") d
   | ["destroy", r] => do
       let r ← r.toNat?; let v ← get r
       let (v', d) := v.destroy
